@@ -144,9 +144,41 @@ func (c *fnCtx) run() {
 			c.mapWrite(e, e.X)
 		case *ast.RangeStmt:
 			c.rangePtr(e)
+		case *ast.BinaryExpr:
+			c.ifaceCmp(e)
 		}
 		return true
 	})
+}
+
+// ifaceCmp: `a == b` / `a != b` with both operands of a (non-error) interface type: a run-time panic
+// ("comparing uncomparable type") when both hold a slice / map / func of the same dynamic type.
+func (c *fnCtx) ifaceCmp(e *ast.BinaryExpr) {
+	if e.Op != token.EQL && e.Op != token.NEQ {
+		return
+	}
+	isIface := func(x ast.Expr) bool {
+		tv, ok := c.info.Types[x]
+		if !ok || tv.Type == nil || tv.IsNil() {
+			return false
+		}
+		if b, ok := tv.Type.(*types.Basic); ok && b.Kind() == types.UntypedNil {
+			return false
+		}
+		if _, ok := types.Unalias(tv.Type).(*types.TypeParam); ok {
+			return false
+		}
+		if !types.IsInterface(tv.Type) {
+			return false
+		}
+		if n, ok := types.Unalias(tv.Type).(*types.Named); ok && n.Obj().Pkg() == nil && n.Obj().Name() == "error" {
+			return false
+		}
+		return true
+	}
+	if isIface(e.X) && isIface(e.Y) {
+		c.emit("ifacecmp", e, c.x.source(e), "none")
+	}
 }
 
 // prepass: parameters and the definitions of local variables (for mapwrite), self-recursive literals.
